@@ -62,3 +62,8 @@ package federation
 //@   keeps map[string]map[string]*IntrospectionQueryResult, map[string]*IntrospectionQueryResult, []string
 //@   call mergeSchemaSlice assert arg1 == Intersection && len(arg0) == len(versionNames) && (forall k int :: 0 <= k && k < len(versionNames) ==> arg0[k] == versions[versionNames[k]])
 //@   loop 4 invariant -1 <= rangeindex && rangeindex < len(versionNames) && len(versionSchemas) == rangeindex+1 && (versionSchemas == nil || fresh(versionSchemas)) && (forall k int :: 0 <= k && k <= rangeindex ==> versionSchemas[k] == versions[versionNames[k]])
+
+// ---- C06 (stitching): a null object needs no sub-query - key extraction succeeds on it at every depth (defect s24: it
+// failed with "not an object" when the null sat exactly where the keys for the next service are collected).
+//@ func pathSubqueryMetadata.extractKeys
+//@   ensures node == nil ==> err == nil
